@@ -1257,6 +1257,43 @@ pub fn mono(genv: GlobalTypeEnv, file: core::File) -> (MonoFile, GlobalMonoEnv) 
         }
     }
 
+    // Trait method signatures are what the Go backend builds dyn vtables from;
+    // they can mention generic applications as well (fn m(Self, Option[int32])).
+    let trait_names: Vec<String> = m
+        .monoenv
+        .genv
+        .trait_env
+        .trait_defs
+        .keys()
+        .cloned()
+        .collect();
+    for trait_name in trait_names {
+        let Some(def) = m.monoenv.genv.trait_env.trait_defs.get(&trait_name).cloned() else {
+            continue;
+        };
+        let mut methods = def.methods.clone();
+        for scheme in methods.values_mut() {
+            if let Ty::TFunc { params, ret_ty } = &scheme.ty {
+                let params: Vec<Ty> = params
+                    .iter()
+                    .enumerate()
+                    .map(|(i, t)| {
+                        if i == 0 {
+                            t.clone()
+                        } else {
+                            m.collapse_type_apps(t)
+                        }
+                    })
+                    .collect();
+                let ret_ty = Box::new(m.collapse_type_apps(ret_ty));
+                scheme.ty = Ty::TFunc { params, ret_ty };
+            }
+        }
+        if let Some(slot) = m.monoenv.genv.trait_env.trait_defs.get_mut(&trait_name) {
+            slot.methods = methods;
+        }
+    }
+
     // Drop all generic enum defs to avoid Go backend panics
     m.monoenv.retain_enums(|_n, def| def.generics.is_empty());
     m.monoenv.retain_structs(|_n, def| def.generics.is_empty());
